@@ -6,6 +6,7 @@
 3. posixpath.normpath is C in 3.12 (realises symbolic strings) -> CPython pure-Python fallback.
 """
 import re
+import crosshair.core_and_libs  # noqa: F401  (registers the stock patches first)
 from crosshair import core as _core
 from crosshair.libimpl import relib
 
@@ -116,3 +117,36 @@ def normpath(path):
     return path or dot
 C_NORMPATH = posixpath.normpath
 posixpath.normpath = normpath
+
+
+# --- 4. SequenceConcatenation.__eq__: a concrete (possibly empty) list/tuple half compared with a
+# symbolic slice of the other operand goes through list.__eq__, which answers NotImplemented/False
+# for non-list sequences.  Found via a non-reproducing counterexample: (t + '').split('/') !=
+# t.split('/').  Compare element-wise instead.
+from crosshair import simplestructs as _ss
+from crosshair.tracers import NoTracing as _NoTracing
+
+
+def _seq_eq(a, b):
+    if isinstance(a, (list, tuple)) and type(a) is not type(b):
+        if len(a) != len(b):
+            return False
+        for x, y in zip(a, b):
+            if x != y:
+                return False
+        return True
+    return a == b
+
+
+def _concat_eq(self, other):
+    with _NoTracing():
+        if not hasattr(other, '__len__'):
+            return False
+        first, second = self._first, self._second
+    if self.__len__() != other.__len__():
+        return False
+    firstlen = first.__len__()
+    return _seq_eq(first, other[:firstlen]) and _seq_eq(second, other[firstlen:])
+
+
+_ss.SequenceConcatenation.__eq__ = _concat_eq
